@@ -318,7 +318,7 @@ def _command_pre_call(I, b):
         ncp.check_request(I, cls, name, list(b.get("args", ())), dict(b.get("kwargs", {})))
 
 
-@contract("bellows.ezsp.protocol.ProtocolHandler.command", props=["C06"])
+@contract("bellows.ezsp.protocol.ProtocolHandler.command", props=["C06", "C10"])
 def _(c):
     c.self(PH)
     c.effect_name = "ncp.command"
@@ -401,6 +401,16 @@ def _(c):
         "post.response_wait_bounded_by_command_timeout",
         lambda fx: all(r[2][0] == protocol.EZSP_CMD_TIMEOUT for r in fx if r[0] == "timeout.armed")
         and len([r for r in fx if r[0] == "timeout.armed"]) <= 1,
+        on="any",
+    )
+    # "every command call that was in progress returns or raises within the sum of the command and link timeouts" (C10):
+    # while it holds the send slot a call suspends at most twice -- once handing the frame to the link (bounded by the
+    # link's retry budget, C05 post.total_wait_within_the_retry_budget) and once waiting for the response under the
+    # command timeout -- and never otherwise
+    c.ensures(
+        "post.only_bounded_waits_while_holding_the_slot",
+        lambda fx: [r[1] for r in awaits_of(fx)[1:]] in ([], ["gw.send_data"], ["gw.send_data", "future"])
+        and all(r[1] in ("psem_cm.__aenter__", "psem.acquire") for r in awaits_of(fx)[:1]),
         on="any",
     )
     c.ensures(
